@@ -378,6 +378,117 @@ def gen_static_matrix():
     return out
 
 
+STRING_PIECES = ["a", " ", "\\\"", "\u00e9", "\u2192", "\U0001F606", "\\n", "\\t", "\\\\", "\\q", "{{", "}}", "{x}", "{u}", "{ x }", "{  u }",
+                 "{", "}", "{1}", "{x y}", "\\\u00e9", "\\{"]
+
+
+def gen_string_rich(rng, quick):
+    """Diagnostics inside and right after rich string literals.  A literal's content is a sequence of
+    pieces: plain / 2- / 3- / 4-byte characters, valid and invalid escapes, `{{` `}}`, placeholders of a
+    declared (x) and an undeclared (u) variable, padded placeholders, malformed placeholders, the closing
+    quote escaped.  Bounded-exhaustive up to 3 pieces in a context that reaches the static checker, plus
+    random longer ones in more contexts: both quote characters, something statically wrong FOLLOWING the
+    string on the same line (undeclared name, unknown method, wrong operand type, wrong argument type),
+    strings as conditions / indexes / arguments / return values, unreachable and unused code after them,
+    CRLF line ends."""
+    out = []
+    ctx_small = ['make x get 1\nshout("%s")\n', "make x get 1\nmake v get '%s' add u\n"]
+    for k in range(0, 4):
+        for w in itertools.product(STRING_PIECES, repeat=k):
+            body = "".join(w)
+            if k == 3 and not any(p in ("{u}", "{  u }", "\\q", "{1}", "{x y}", "{", "\\\u00e9") for p in w):
+                continue      # nothing in it can carry a diagnostic: keep only the shorter ones
+            out.append(ctx_small[0] % body)
+            if k <= 2:
+                out.append(ctx_small[1] % body.replace("'", ""))
+    ctx = ['make x get 1\nshout("%s")\n', "make x get 1\nshout('%s')\n", 'make x get 1\nshout("%s" add u)\n',
+           'make x get 1\nshout("%s".nope(), zz)\n', 'make x get 1\nshout("%s" minus 1)\n', 'make x get 1\nshout(["a"].join("%s", 2), [1].join(3))\n',
+           'make x get 1\nif to say ("%s") start\n  shout(x)\nend\n', 'make x get 1\nmake a get [1]\nshout(a["%s"])\n',
+           'do f(x) start\n  return "%s"\n  shout("%s")\nend\nshout(f(1))\n', 'make x get 1\nmake w get "%s"\nmake w2 get "%s" make x get 2\n',
+           'make x get 1\nshout("%s") shout(u) # \u00e9\n', 'make x get 1\nshout("%s", "%s")\nu get "%s"\n',
+           'make x get 1\nmake s get "%s"\nshout(s.%s)\n']
+    for _ in range(1500 if quick else 40000):
+        n = rng.randint(2, 7)
+        bodies = ["".join(rng.choice(STRING_PIECES) for _ in range(rng.randint(1, n))) for _ in range(3)]
+        c = rng.choice(ctx)
+        k = c.count("%s")
+        if c.endswith("s.%s)\n"):
+            text = c % (bodies[0], rng.choice(["len()", "nope()", "slice(\"%s\", 1)" % bodies[1], "find({x})", "find(\"{u}\u2192\")"]))
+        else:
+            text = c % tuple(bodies[:k])
+        if "'%s'" in c:
+            text = text.replace("\\\"", "\\'")
+        r = rng.random()
+        if r < 0.2:
+            text = text.replace("\n", "\r\n")
+        elif r < 0.3:
+            text = spaced(text, rng.choice([" ", "\r\n", "\t"]))
+        out.append(text)
+    return out
+
+
+def gen_token_truncations(rng, progs, limit):
+    """Texts that end exactly after a token, one byte before and one byte after that point, for every
+    token of the sample programs and of a set of nested unclosed constructs (so the end of input is met
+    inside every construct after every kind of token)."""
+    nests = ["do f(a, b) start\n  make t get [1, a.len(), \"s{a}\"] add a . len ( ) \n  if to say (t na 1 and not b) start\n    jasi (true) start\n      comot\n      next\n    end\n  end\n"
+             "  if not so start\n    return t[0] small pass 2\n  end\n  t[0] get null\n  do g() start return f(1, 2) end\nend\nmake x get f(1, false) minus 2.5 times (3 mod 2) divide 1 or true\n"]
+    texts = list(nests) + list(progs)
+    out = []
+    for t in texts:
+        if len(out) > limit:
+            break
+        b = t.encode("utf-8")
+        pos = 0
+        cuts = set()
+        for p in pieces(t):
+            pos += len(p.encode("utf-8"))
+            if not p.isspace():
+                cuts.update((pos - 1, pos, pos + 1))
+        for c in sorted(cuts):
+            if 0 < c <= len(b):
+                out.append(b[:c].decode("utf-8", "ignore"))
+    return out
+
+
+def gen_tinygen(rng, n):
+    """Programs of the shared tiny-vocabulary grammar fuzzer (lib/tinygen.py, whole grammar, template
+    strings, heavy name reuse), each also cut at random token boundaries (and one byte either side),
+    re-laid-out (blank / CRLF in every gap) and with an error injected: a string literal's content
+    replaced by rich pieces (escapes, braces, multi-byte characters, undeclared placeholders)."""
+    try:
+        import tinygen
+    except Exception:
+        return []
+    out = []
+    for _ in range(n):
+        try:
+            src = tinygen.gen(rng)[0]
+        except Exception:
+            continue
+        out.append(src)
+        out.append(spaced(src, rng.choice([" ", "\r\n", "\t", "  "])) if rng.random() < 0.6 else src.replace("\n", "\r\n"))
+        b = src.encode("utf-8")
+        pos, cuts = 0, []
+        for p in pieces(src):
+            pos += len(p.encode("utf-8"))
+            if not p.isspace():
+                cuts.append(pos)
+        for c in rng.sample(cuts, min(3, len(cuts))):
+            c += rng.choice([-1, 0, 0, 1])
+            if 0 < c <= len(b):
+                out.append(b[:c].decode("utf-8", "ignore"))
+        ps = pieces(src)
+        strs = [i for i, p in enumerate(ps) if len(p) >= 2 and p[0] in "\"'" and p[-1] == p[0]]
+        if strs:
+            i = rng.choice(strs)
+            q = ps[i][0]
+            body = "".join(rng.choice(STRING_PIECES) for _ in range(rng.randint(1, 5)))
+            ps[i] = q + (body.replace("\\\"", "\\'") if q == "'" else body) + q
+            out.append("".join(ps))
+    return out
+
+
 def gen_relayouts_of(rng, texts, n):
     """Non-canonical layouts (incl. CR / CRLF line ends) of texts from the error-producing streams."""
     out = []
@@ -482,6 +593,9 @@ def gen_cases(env):
         ("semantic-mutation", semmut),
         ("static-errors", static),
         ("static-matrix", gen_static_matrix()),
+        ("string-rich", gen_string_rich(rng, quick)),
+        ("token-truncation", gen_token_truncations(rng, progs, 9000 if quick else 10 ** 9)),
+        ("tinygen", gen_tinygen(rng, 600 if quick else 15000)),
         ("byte-noise", noise),
         ("relayout-of-errors", gen_relayouts_of(rng, adjacency + tokmut + semmut + noise, 1500 if quick else 40000)),
         ("truncation", gen_truncations(progs, 6000 if quick else 10 ** 9)),
